@@ -157,6 +157,8 @@ func Run(kind, repo, out string) error {
 		return genMintSites(repo, out)
 	case "auth":
 		return genAuth(repo, out)
+	case "fees":
+		return genFees(repo, out)
 	}
 	return fmt.Errorf("unknown extractor %s", kind)
 }
